@@ -20,6 +20,8 @@ const (
 	vkMandatory
 	vkLeafList
 	vkSignedRange
+	vkLeafref
+	vkLeafrefValue
 )
 
 func vDkLeaf(leafElems []string, keyOf bool, keyVal string) *vLeaf {
@@ -64,6 +66,24 @@ func vScenarioValidators() (*vScenario, int) {
 			{id: "rangetestsigned", elems: []*sdcpb.PathElem{vPE("rangetestsigned")}, strs: []string{"rangetestsigned"}, isInt: true,
 				intLo: int64(verifrt.Param("intlo", -3100)), intHi: int64(verifrt.Param("inthi", 400))},
 		}, owners: []string{"A", "B"}}
+	case vkLeafref:
+		// container mgmt-interface { leaf name { type leafref { path "/interface/name"; } } }  (require-instance true)
+		// the only interface of the universe is lo1 (an intent defines it by setting its description)
+		ref := &vLeaf{id: "mgmt-interface/name", elems: []*sdcpb.PathElem{vPE("mgmt-interface"), vPE("name")}, strs: []string{"mgmt-interface", "name"},
+			enum: []string{"lo1", "lo10"}}
+		sc = &vScenario{leaves: []*vLeaf{ref, vIfLeaf("lo1", "description", false), vIfKeyLeaf("lo1")}, owners: []string{"A", "B"}}
+	case vkLeafrefValue:
+		// leaf mgmt-interface/type { type leafref { path "/interface[name=current()/../name]/interface-type"; } }:
+		// the reference is to a VALUE another intent may change
+		typ := &vLeaf{id: "mgmt-interface/type", elems: []*sdcpb.PathElem{vPE("mgmt-interface"), vPE("type")}, strs: []string{"mgmt-interface", "type"}}
+		name := &vLeaf{id: "mgmt-interface/name", elems: []*sdcpb.PathElem{vPE("mgmt-interface"), vPE("name")}, strs: []string{"mgmt-interface", "name"}, enum: []string{"lo1"}}
+		target := vIfLeaf("lo1", "interface-type", false)
+		if verifrt.Param("split", 1) == 1 {
+			// the dependency crosses intents: A holds the reference (type and name together),
+			// B holds the referenced interface
+			typ.onlyOwner, name.onlyOwner, name.tiedTo, target.onlyOwner = "A", "A", typ.id, "B"
+		}
+		sc = &vScenario{leaves: []*vLeaf{typ, name, target, vIfKeyLeaf("lo1")}, owners: []string{"A", "B"}}
 	default:
 		// leaf patterntest { type string { length "7..10"; pattern 'hallo [0-9a-fA-F]*' } }
 		sc = &vScenario{leaves: []*vLeaf{
@@ -110,6 +130,51 @@ func (st *vState) validAspects(kind int) map[string]bool {
 			}
 		}
 		out["mandatory"] = !exists || has
+	case vkLeafref:
+		ref, target := sc.leaves[0], sc.leaves[1]
+		// the referenced interface exists iff lo1 exists (an intent or the device defines its leaf)
+		lo1 := verifrt.Or(st.managed(target), st.rpres[target.id])
+		ok := true
+		for _, o := range sc.owners {
+			if st.pres[ref.id][o] {
+				ok = verifrt.And(ok, verifrt.Implies(st.wins(ref, o), verifrt.And(st.val[ref.id][o].s == "lo1", lo1)))
+			}
+		}
+		if !st.managed(ref) && st.rpres[ref.id] {
+			ok = verifrt.And(st.rval[ref.id].s == "lo1", lo1)
+		}
+		out["leafref"] = ok
+	case vkLeafrefValue:
+		typ, name, target := sc.leaves[0], sc.leaves[1], sc.leaves[2]
+		lo1 := verifrt.Or(st.managed(target), st.rpres[target.id])
+		nameDef := verifrt.Or(st.managed(name), st.rpres[name.id])
+		// the value the interface-type of lo1 has in the resulting configuration equals v
+		targetIs := func(v string) bool {
+			r := false
+			for _, o := range sc.owners {
+				if st.pres[target.id][o] {
+					r = verifrt.Or(r, verifrt.And(st.wins(target, o), st.val[target.id][o].s == v))
+				}
+			}
+			if !st.managed(target) && st.rpres[target.id] {
+				r = st.rval[target.id].s == v
+			}
+			return r
+		}
+		okName, okType := true, true
+		if nameDef {
+			okName = lo1
+		}
+		for _, o := range sc.owners {
+			if st.pres[typ.id][o] {
+				okType = verifrt.And(okType, verifrt.Implies(st.wins(typ, o), verifrt.And(nameDef, targetIs(st.val[typ.id][o].s))))
+			}
+		}
+		if !st.managed(typ) && st.rpres[typ.id] {
+			okType = verifrt.And(nameDef, targetIs(st.rval[typ.id].s))
+		}
+		out["leafref-name"] = okName
+		out["leafref-value"] = okType
 	case vkLeafList:
 		l := sc.leaves[0]
 		ok := true
@@ -165,7 +230,7 @@ func (st *vState) managed(l *vLeaf) bool {
 
 func vAllValid(a map[string]bool) bool {
 	v := true
-	for _, k := range []string{"mandatory", "min-max-elements", "range", "pattern", "length"} {
+	for _, k := range []string{"mandatory", "min-max-elements", "range", "pattern", "length", "leafref", "leafref-name", "leafref-value"} {
 		if b, ok := a[k]; ok {
 			v = verifrt.And(v, b)
 		}
@@ -264,6 +329,7 @@ func VerifVerdictIsValidity() {
 	aspects := post.validAspects(kind)
 	valid := vAllValid(aspects)
 	m := post.merged("m.")
+	before := vSnapshot(env.model)
 	verifrt.Reach("state-built")
 
 	rsp, err := vStep(env, sc, "t1", reqs, false)
@@ -283,6 +349,12 @@ func VerifVerdictIsValidity() {
 		if !ok {
 			verifrt.Reach("invalid-result")
 			verifrt.Assert(rejected, "C04-invalid-result-rejected/"+name+situation)
+			// C03 on the same run: a transaction whose result violates a constraint sends
+			// nothing and leaves both stores as they were
+			verifrt.Assert(env.tgt.Sets == 0, "C03-invalid-result-nothing-sent/"+name+situation)
+			if env.tgt.Sets == 0 {
+				vAssertSameBuckets(before, vSnapshot(env.model), "C03-invalid-result-stores-unchanged")
+			}
 		}
 	}
 	if valid {
